@@ -516,7 +516,10 @@ func (e *Enc) execCall(v ssa.Value, c *ssa.CallCommon, in ssa.Instruction, guard
 	if c.IsInvoke() {
 		args = append(args, e.val(c.Value))
 		argTypes = append(argTypes, c.Value.Type())
-		e.oblige("nil", e.ordName("nil"), tNot(tEq(sx("i-typ", e.val(c.Value).T), "0")), in.Pos(), "method call on nil interface: "+site)
+		if !isTypeParam(c.Value.Type()) {
+			// (a value of type-parameter type is not an interface: the call itself cannot nil-panic)
+			e.oblige("nil", e.ordName("nil"), tNot(tEq(sx("i-typ", e.val(c.Value).T), "0")), in.Pos(), "method call on nil interface: "+site)
+		}
 	}
 	for _, a := range c.Args {
 		args = append(args, e.val(a))
